@@ -89,8 +89,13 @@ def install(M):
     def should_ignore(P, c, args, dt):
         name = concrete_bytes(as_bytes(args[0]))
         table = P.state.get('ignored', {})
-        if name is None or name not in table:
-            raise Unsupported('ignore predicate asked about an unexpected path %r' % (name,))
+        if name is None:
+            raise Unsupported('ignore predicate asked about a symbolic path')
+        if name not in table:
+            # the matcher is an arbitrary predicate on the path string: a path the harness did not
+            # put into the numstat text gets its own unconstrained answer
+            table[name] = mk_bool(P.fresh_bool('ign_other'))
+            P.state['ignored'] = table
         return table[name]
     M.env['authorship::ignore::build_ignore_matcher'] = build_ignore_matcher
     M.env['authorship::ignore::should_ignore_file_with_matcher'] = should_ignore
